@@ -7,5 +7,5 @@ Extraction Language OCaml.
 Extraction "extracted/model.ml" layout layout_single layout_multi hash_count_ok
   decode load sha1 hexdigest utf8_valid
   distinct_torrents metadata_table prelude_prog populate work_of solve_prog walk apply_op
-  fs_lookup fs_content fs_file set_node set_data unique_lengths scan_registers path_eqb fileid_eqb
-  rank sort_candidates prune searches_for write_prog resize_prog sys_do sys_event sys_skip sys_run xrun xstep xinit xdone balanced_check.
+  fs_lookup fs_content fs_file set_node set_data unique_lengths scan_registers under_of path_eqb fileid_eqb
+  rank sort_candidates prune searches_for write_prog resize_prog sys_do sys_event sys_skip sys_run count progress xrun xstep xinit xdone balanced_check.
